@@ -3,6 +3,7 @@ package main
 import (
 	"fmt"
 	"go/ast"
+	"go/token"
 	"go/types"
 	"sort"
 	"strings"
@@ -28,7 +29,7 @@ func runC11(p *Prog, r *Report) {
 func typeWritesOwnFields(p *Prog) map[string]string {
 	out := map[string]string{} // "pkg.Type" -> witness
 	type key struct{ pkg, typ string }
-	direct := map[key]map[string]string{}   // type -> method -> witness
+	direct := map[key]map[string]string{}  // type -> method -> witness
 	calls := map[key]map[string][]string{} // type -> method -> callee methods on receiver
 	for _, pkg := range p.All {
 		if pkg.Syntax == nil {
@@ -411,7 +412,7 @@ func c11R2R3(p *Prog, r *Report, sites []*relaySite) {
 		n := 0
 		for _, v := range fc.G.V {
 			if as, ok := v.Node.(*ast.AssignStmt); ok && len(as.Lhs) == 1 {
-				if ix, ok := ast.Unparen(as.Lhs[0]).(*ast.IndexExpr); ok && strings.HasSuffix(exprStr(ix.X), ".table") {
+				if ix, ok := ast.Unparen(as.Lhs[0]).(*ast.IndexExpr); ok && isRelayTable(fc.Info(), ix.X) {
 					n++
 					ok2, which := guardedByAll(v.ID)
 					r.Check(ok2, r2, fc.Name+":table-insert", p.posStr(as.Pos()), "inserted only after the packet was identified and unpacked successfully", "a session is registered although "+which+" may have failed for the packet: garbage datagrams create sessions, sockets and goroutines")
@@ -462,7 +463,7 @@ func c11R2R3(p *Prog, r *Report, sites []*relaySite) {
 		for _, g := range guards {
 			for _, e := range g.ResultEdges(-1, WantNonNil) {
 				reach := fc.G.Reach([]int{e.To}, func(v *Vertex) bool { return v.ID == g.V }, nil)
-				sends, _ := chanOpsOn(fc, "natConnSendCh")
+				sends, _ := chanOpsOn(fc)
 				bad := false
 				for _, sv := range sends {
 					if reach[sv] {
@@ -561,7 +562,7 @@ func c11R4(p *Prog, r *Report, sites []*relaySite) {
 		natConn := listen.ResultVar(0)
 		sess := newSession.ResultVar(1)
 		// uplink / downlink struct literals
-		check := func(lc *FuncCtx, callPrefix string, want map[string]func(string) bool, label string) {
+		check := func(lc *FuncCtx, callPrefix string, want map[string]func(ast.Expr) bool, label string) {
 			for _, cs := range lc.AllCalls() {
 				if cs.Fn == nil || !strings.HasPrefix(cs.Fn.Name(), callPrefix) {
 					continue
@@ -577,9 +578,12 @@ func c11R4(p *Prog, r *Report, sites []*relaySite) {
 							continue
 						}
 						k := kv.Key.(*ast.Ident).Name
+						if isSessChan(lc.Info(), kv.Value) {
+							k = "natConnSendCh" // the queue field, whatever it is called
+						}
 						if f, ok := want[k]; ok {
 							v := exprStr(kv.Value)
-							r.Check(f(v), rule, fmt.Sprintf("%s:%s.%s", s.Recv.Name, label, k), p.posStr(kv.Pos()), k+": "+v, label+" is wired with "+k+": "+v+", not this session's own object")
+							r.Check(f(kv.Value), rule, fmt.Sprintf("%s:%s.%s", s.Recv.Name, label, k), p.posStr(kv.Pos()), k+": "+v, label+" is wired with "+k+": "+v+", not this session's own object")
 						}
 					}
 				}
@@ -593,30 +597,12 @@ func c11R4(p *Prog, r *Report, sites []*relaySite) {
 		if sess != nil {
 			sn = sess.Name()
 		}
-		isNat := func(v string) bool { return v == nc || strings.HasPrefix(v, nc+".") }
-		if s.UplinkLit != nil {
-			check(s.UplinkLit, "relayServerConnToNatConn", map[string]func(string) bool{
-				"natConn":       isNat,
-				"natConnPacker": func(v string) bool { return v == sn+".Packer" },
-				"natConnSendCh": func(v string) bool { return v == "natConnSendCh" },
-				"username":      func(v string) bool { return strings.HasSuffix(v, ".username") },
-			}, "uplink")
+		isNat := func(e ast.Expr) bool { v := exprStr(e); return v == nc || strings.HasPrefix(v, nc+".") }
+		str := func(f func(string) bool) func(ast.Expr) bool {
+			return func(e ast.Expr) bool { return f(exprStr(e)) }
 		}
-		check(fc, "relayNatConnTo", map[string]func(string) bool{
-			"natConn":          isNat,
-			"natConnUnpacker":  func(v string) bool { return v == sn+".Unpacker" },
-			"serverConn":       func(v string) bool { return strings.HasSuffix(v, ".serverConn") || strings.HasPrefix(v, "serverConn.") },
-			"serverConnPacker": func(v string) bool { return v == "serverConnPacker" },
-			"clientAddrInfo":   func(v string) bool { return strings.HasPrefix(v, "&entry.") },
-			"username":         func(v string) bool { return strings.HasSuffix(v, ".username") },
-		}, "downlink")
-		// serverConnPacker := entry.serverConnUnpacker.NewPacker()
-		for _, cs := range fc.AllCalls() {
-			if cs.Fn != nil && cs.Fn.Name() == "NewPacker" {
-				r.Check(strings.HasPrefix(exprStr(cs.Call.Fun), "entry.serverConnUnpacker."), rule, s.Recv.Name+":packer-of-own-unpacker", cs.Pos(), "the server packer comes from this entry's unpacker", "the server packer is created by "+exprStr(cs.Call.Fun))
-			}
-		}
-		// enqueue: entry.natConnSendCh where entry is the lookup result for this packet's key
+		// the table entry this session belongs to: the variable looked up from / inserted into the
+		// relay's table in the receive function (captured by the session closure)
 		rf := s.Recv
 		var entryObj types.Object
 		var keyStr string
@@ -625,12 +611,49 @@ func c11R4(p *Prog, r *Report, sites []*relaySite) {
 			if !ok || len(as.Rhs) != 1 {
 				continue
 			}
-			if ix, ok := ast.Unparen(as.Rhs[0]).(*ast.IndexExpr); ok && strings.HasSuffix(exprStr(ix.X), ".table") {
+			if ix, ok := ast.Unparen(as.Rhs[0]).(*ast.IndexExpr); ok && isRelayTable(rf.Info(), ix.X) {
 				entryObj = objOf(rf.Info(), as.Lhs[0])
 				keyStr = exprStr(ix.Index)
 			}
 		}
-		sends, _ := chanOpsOn(rf, "natConnSendCh")
+		ofEntry := func(e ast.Expr) bool {
+			if u, ok := ast.Unparen(e).(*ast.UnaryExpr); ok && u.Op == token.AND {
+				e = u.X
+			}
+			root, path, ok := pathOf(info, e)
+			return ok && entryObj != nil && root == entryObj && path != ""
+		}
+		var packerVar types.Object
+		for _, cs := range fc.AllCalls() {
+			if cs.Fn != nil && cs.Fn.Name() == "NewPacker" {
+				packerVar = cs.ResultVar(0)
+			}
+		}
+		if s.UplinkLit != nil {
+			check(s.UplinkLit, "relayServerConnToNatConn", map[string]func(ast.Expr) bool{
+				"natConn":       isNat,
+				"natConnPacker": str(func(v string) bool { return v == sn+".Packer" }),
+				"natConnSendCh": func(e ast.Expr) bool { return isSessChan(info, e) },
+				"username":      str(func(v string) bool { return strings.HasSuffix(v, ".username") }),
+			}, "uplink")
+		}
+		check(fc, "relayNatConnTo", map[string]func(ast.Expr) bool{
+			"natConn":          isNat,
+			"natConnUnpacker":  str(func(v string) bool { return v == sn+".Unpacker" }),
+			"serverConn":       str(func(v string) bool { return strings.HasSuffix(v, ".serverConn") || strings.HasPrefix(v, "serverConn.") }),
+			"serverConnPacker": func(e ast.Expr) bool { return packerVar != nil && objOf(info, e) == packerVar },
+			"clientAddrInfo":   ofEntry,
+			"username":         str(func(v string) bool { return strings.HasSuffix(v, ".username") }),
+		}, "downlink")
+		// serverConnPacker := entry.serverConnUnpacker.NewPacker()
+		for _, cs := range fc.AllCalls() {
+			if cs.Fn != nil && cs.Fn.Name() == "NewPacker" {
+				sel, _ := ast.Unparen(cs.Call.Fun).(*ast.SelectorExpr)
+				r.Check(sel != nil && ofEntry(sel.X), rule, s.Recv.Name+":packer-of-own-unpacker", cs.Pos(), "the server packer comes from this entry's unpacker", "the server packer is created by "+exprStr(cs.Call.Fun))
+			}
+		}
+		// enqueue: entry.natConnSendCh where entry is the lookup result for this packet's key
+		sends, _ := chanOpsOn(rf)
 		for i, sv := range sends {
 			ss := rf.G.V[sv].Node.(*ast.SendStmt)
 			sel, ok := ast.Unparen(ss.Chan).(*ast.SelectorExpr)
@@ -639,7 +662,7 @@ func c11R4(p *Prog, r *Report, sites []*relaySite) {
 		// the insert key equals the lookup key
 		for _, v := range rf.G.V {
 			if as, ok := v.Node.(*ast.AssignStmt); ok && len(as.Lhs) == 1 {
-				if ix, ok := ast.Unparen(as.Lhs[0]).(*ast.IndexExpr); ok && strings.HasSuffix(exprStr(ix.X), ".table") {
+				if ix, ok := ast.Unparen(as.Lhs[0]).(*ast.IndexExpr); ok && isRelayTable(rf.Info(), ix.X) {
 					r.Check(exprStr(ix.Index) == keyStr && objOf(rf.Info(), as.Rhs[0]) == entryObj, rule, rf.Name+":insert-under-lookup-key", p.posStr(as.Pos()), "the entry is inserted under the key it was looked up with", "the new entry is inserted under "+exprStr(ix.Index)+" but was looked up under "+keyStr)
 				}
 			}
@@ -665,7 +688,7 @@ func c11R5(p *Prog, r *Report, sites []*relaySite) {
 			ast.Inspect(fc.Body, func(n ast.Node) bool {
 				switch x := n.(type) {
 				case *ast.IndexExpr:
-					if strings.HasSuffix(exprStr(x.X), ".table") {
+					if isRelayTable(fc.Info(), x.X) {
 						add("table")
 					}
 				case *ast.CallExpr:
